@@ -424,6 +424,10 @@ def gen_queries(rng, docs, n):
                 qs.append({"mode": "match", "form": "dict", "pairs": [["Prop", "value", vals[:2][::-1]]]})
                 qs.append({"mode": "match", "form": "dict", "pairs": [["Prop", "value", vals[:1]], ["Prop", "name", m["name"]]]})
                 qs.append({"mode": "match", "form": "dict", "pairs": [["Prop", "value", [vals[0], "absent-xyz"]]]})
+                # the string way: the value list before and after another attribute of the Property
+                qs.append({"mode": "match", "form": "str", "pairs": [["Prop", "value", vals[:2]], ["Prop", "name", m["name"]]]})
+                qs.append({"mode": "match", "form": "str", "pairs": [["Prop", "name", m["name"]], ["Prop", "value", vals[:2]]]})
+                qs.append({"mode": "match", "form": "str", "pairs": [["Prop", "value", vals[:1]], ["Prop", "name", "absent-xyz"]]})
     for _ in range(n):
         combo = rng.choice([["Doc"], ["Sec"], ["Sec"], ["Prop"], ["Prop"], ["Doc", "Sec"], ["Sec", "Prop"], ["Sec", "Prop"],
                             ["Doc", "Sec", "Prop"]])
